@@ -142,7 +142,6 @@ package pcs
 //@ func QEIdentity.verify
 //@   props C18
 //@   safety nil bounds
-//@   modifies nothing
 //@   requires qe != nil && report != nil
 //@   ensures err == nil ==> qe.ISVProdID == report.isvProdID
 //@   ensures-local err == nil ==> expectedMrSigner == report.mrSigner
